@@ -67,7 +67,7 @@ def execute(mod, spec, trace=None, stalls=None, strict=True):
     """One simulated run of `spec`.  With `trace`, the schedule is replayed instead of drawn."""
     from sim import core, seams
     from harness.env import Env
-    seams.install(metrics=getattr(mod, "METRICS", False))
+    seams.install(metrics=True)
     cfg = spec["sim"]
     if trace is not None:
         chooser = core.TraceChooser({int(a): b for (a, b) in trace},
@@ -626,7 +626,7 @@ def write_evidence(mod, prop, tier, vseed, agg, wall_s, n_new, known_hits, known
             "concurrent.futures._base / .thread": "real stdlib code on simulated primitives",
             "threading.{Lock,RLock,Condition,Event,Semaphore,Thread}, queue.SimpleQueue, time.monotonic": "simulated",
             "delegate executor": "real ThreadPoolExecutor / SyncExecutor and scripted SpyExecutor, per run",
-            "prometheus_client": "stub" if getattr(mod, "METRICS", False) else "not loaded (NullMetrics)",
+            "prometheus_client": "stub (sim/promstub): PrometheusMetrics code paths run in every check",
             "logging": "real, disabled",
         },
         "repo_tree": repo_tree_id(),
